@@ -47,7 +47,7 @@ META = {
 }
 # properties whose enabled units are judged sufficient to claim (kept explicit: a property is
 # not claimed just because a shared unit happens to serve it)
-CLAIM = ['C01', 'C02', 'C03', 'C04', 'C06', 'C07', 'C08', 'C09', 'C10', 'C12', 'C13', 'C15', 'C17', 'C18', 'C19']
+CLAIM = ['C01', 'C02', 'C03', 'C04', 'C05', 'C06', 'C07', 'C08', 'C09', 'C10', 'C12', 'C13', 'C15', 'C17', 'C18', 'C19']
 NA = {
     'C11': 'quantifies over schedules of tokio tasks and OS threads; neither Verus (without rewriting the pipeline over its permission types = a model) nor Kani (no threads/async) can express it; the sequential facts it rests on are proved under C01/C12 but do not decide C11',
     'C14': 'quantifies over crash points / fault sequences across the whole pipeline; no per-call contract states "every prefix of the destination\'s operation history"; supporting facts (magic written last, no swallowed io::Error in the synchronous writer units) are proved under C09 but do not decide C14',
